@@ -2,6 +2,7 @@ import WfModel.MigrateShipped
 import WfProofs.Migrate
 import WfProofs.MigrateLoader
 import WfProofs.MigrateConn
+import WfProofs.MigrateHist
 /-!
 C28 — SQLite schema migrations converge from any earlier schema.
 
@@ -434,6 +435,250 @@ example : (runOnT shipped (legacyDb 2)).1.length > 6 ∧ (runOnT shipped (legacy
   refine ⟨?_, ?_, ?_, ?_⟩ <;> decide +kernel
 
 end C28
+
+/-! ## every run, any sources, any database (wave 11): refinement, primary key never hit, failed runs -/
+
+/-- **What a run is, for any sources and any database, whether it returns or raises**: a list `L` of
+(package, script) pairs was applied in order — each a file of one of the sources with a non-zero version —,
+`schema_migrations` grew by exactly their `(package, version)` rows in that order and the schema is `L` folded
+over the old schema.  Nothing is applied without being recorded, nothing recorded without being applied; the
+table exists afterwards and `user_version` is left alone. -/
+theorem C28_run_refines_trace (sources : List (String × List File)) (db : Db) :
+    ∃ L : C28Trace,
+      (runMigrations sources db).db.rows = (bootstrap db).rows ++ c28TraceRows L ∧
+      foldMigs db.schema (L.map (·.2)) = some (runMigrations sources db).db.schema ∧
+      (runMigrations sources db).db.hasSM = true ∧ (runMigrations sources db).db.userVersion = db.userVersion ∧
+      (∀ e ∈ L, ∃ s ∈ sources, s.1 = e.1 ∧ e.2 ∈ loadMigrations s.2 ∧ e.2.version ≠ 0) := by
+  obtain ⟨L, h1, h2, h3, h4, h5⟩ := c28_runSources_trace (sources.map fun s => (s.1, loadMigrations s.2)) (bootstrap db)
+  have hs : (bootstrap db).schema = db.schema := by unfold bootstrap; split <;> rfl
+  have hu : (bootstrap db).userVersion = db.userVersion := by unfold bootstrap; split <;> rfl
+  refine ⟨L, h1, by rw [← hs]; exact h2, by rw [runMigrations, h3, bootstrap_hasSM], by rw [runMigrations, h4, hu], ?_⟩
+  intro e he
+  obtain ⟨s, hs, e1, e2, e3⟩ := h5 e he
+  obtain ⟨s0, hs0, rfl⟩ := List.mem_map.mp hs
+  exact ⟨s0, hs0, e1, e2, e3⟩
+
+-- non-vacuity: a run over two packages that FAILS in the second one still has a two-entry trace
+example : (match runMigrations
+    [("server", [{ name := "1.sql", text := "-- migration: 1".toList, stmts := [.createTable true "t" [{ name := "a", decl := "|0||0" }]] }]),
+     ("dbos", [{ name := "1.sql", text := "-- migration: 1".toList, stmts := [.createIndex true false "i" "t" ["a"]] },
+               { name := "2.sql", text := "-- migration: 2".toList, stmts := [.invalid] }])] fresh with
+    | .failed f d => f == "2.sql" && d.rows == [("server", 1), ("dbos", 1)]
+    | .ok _ => false) = true := by decide +kernel
+
+/-- **Never recorded twice, in any history**: whatever the sources (duplicate versions, the same package
+twice, unsorted files) and whatever the database, if `schema_migrations` had no duplicate row before the run it
+has none after it — succeeded or failed.  The `INSERT` of the loop therefore never meets the table's primary
+key, which is why the model has no `IntegrityError` branch. -/
+theorem C28_never_recorded_twice (sources : List (String × List File)) (db : Db)
+    (hnd : db.hasSM = true → db.rows.Nodup) : (runMigrations sources db).db.rows.Nodup :=
+  c28_runSources_nodup _ _ (c28_bootstrap_nodup db hnd)
+
+/-- **Every version once, for any sources**: a run that succeeded on a duplicate-free table has recorded every
+non-zero version of every file of every source exactly once (no well-formedness of the lists assumed). -/
+theorem C28_any_sources_each_version_once (sources : List (String × List File)) (db db' : Db)
+    (hnd : db.hasSM = true → db.rows.Nodup) (h : runMigrations sources db = .ok db') :
+    ∀ s ∈ sources, ∀ m ∈ loadMigrations s.2, m.version ≠ 0 → db'.rows.count (s.1, m.version) = 1 := by
+  intro s hs m hm hv
+  have hn := C28_never_recorded_twice sources db hnd
+  rw [h] at hn
+  simp only [Result.db] at hn
+  rw [hn.count]
+  have := c28_runSources_records _ _ _ h (s.1, loadMigrations s.2) (List.mem_map.mpr ⟨s, hs, rfl⟩) m hm
+  rcases this with h0 | hr
+  · exact absurd h0 hv
+  · simp [hr]
+
+-- non-vacuity: duplicate versions inside one package and the same package listed twice
+example : (match runMigrations
+    [("server", [{ name := "1.sql", text := "-- migration: 1".toList, stmts := [.createTable true "t" [{ name := "a", decl := "|0||0" }]] },
+                 { name := "2.sql", text := "-- migration: 1".toList, stmts := [.invalid] }]),
+     ("server", [{ name := "9.sql", text := "-- migration: 1".toList, stmts := [.invalid] },
+                 { name := "x.sql", text := "-- migration: 7".toList, stmts := [.createIndex true false "i" "t" ["a"]] }])] fresh with
+    | .ok d => d.rows == [("server", 1), ("server", 7)]
+    | .failed .. => false) = true := by decide +kernel
+
+/-- **A failed run, in full** (any sources, any database): the file named in the error is a file of one of the
+sources, its version is not zero and is NOT recorded in what the run leaves, its script is rejected by the schema
+the run leaves, the table exists, no earlier row was lost … -/
+theorem C28_failed_run_in_full (sources : List (String × List File)) (db db' : Db) (f : String)
+    (h : runMigrations sources db = .failed f db') :
+    (∃ s ∈ sources, ∃ m ∈ loadMigrations s.2, m.name = f ∧ m.version ≠ 0 ∧ (s.1, m.version) ∉ db'.rows ∧
+      applyStmts db'.schema m.stmts = none) ∧
+    db'.hasSM = true ∧ (∀ r ∈ (bootstrap db).rows, r ∈ db'.rows) := by
+  unfold runMigrations at h
+  obtain ⟨s, hs, m, hm, e⟩ := c28_runSources_failed_spec _ _ _ _ h
+  obtain ⟨s0, hs0, rfl⟩ := List.mem_map.mp hs
+  have hmono := c28_runSources_mono (sources.map fun s => (s.1, loadMigrations s.2)) (bootstrap db)
+  rw [h] at hmono
+  simp only [Result.db] at hmono
+  exact ⟨⟨s0, hs0, m, hm, e⟩, by rw [hmono.2, bootstrap_hasSM], hmono.1⟩
+
+/-- … and **a failed run is a fixed point**: running again (a restart loop) skips what was recorded, reaches
+the same file with the same schema, raises the same error and leaves the database exactly as it is — no partial
+effect accumulates over retries. -/
+theorem C28_failed_run_is_fixed_point (sources : List (String × List File)) (db db' : Db) (f : String)
+    (h : runMigrations sources db = .failed f db') : runMigrations sources db' = .failed f db' := by
+  have hsm := (C28_failed_run_in_full sources db db' f h).2.1
+  unfold runMigrations at h ⊢
+  rw [bootstrap_of_hasSM hsm]
+  exact c28_runSources_failed_repeat _ _ _ _ h
+
+-- non-vacuity: the swapped list fails on a fresh database (and the theorem says it will keep failing the same way)
+example : runMigrations [("server", [{ name := "10_b.sql", text := "-- migration: 10".toList, stmts := [.addColumn "t" { name := "b", decl := "TEXT|0||0" }] }])]
+    fresh = .failed "10_b.sql" { hasSM := true, rows := [], schema := [], userVersion := 0 } := by decide +kernel
+
+/-! ## a second package on top of the server's (the production call of `DBOSRuntime.run_migrations`) -/
+
+/-- hypotheses on the second package's list: versions positive and strictly increasing in file order, and its
+scripts apply, in order, to the final schema of the first list -/
+def C28.SecondOk (ms ms2 : List Migration) : Prop :=
+  (∀ m ∈ ms2, 0 < m.version) ∧ (versions ms2).Pairwise (· < ·) ∧ (foldMigs [] (ms ++ ms2)).isSome = true
+
+instance (ms ms2 : List Migration) : Decidable (C28.SecondOk ms ms2) := by unfold C28.SecondOk; infer_instance
+
+/-- **Two packages converge.**  From every start state of the server list (any server-only history: fresh,
+legacy, any runs of earlier server releases) the run over `[(server, ms), (q, ms2)]` succeeds, the schema is
+all scripts of `ms` then all of `ms2` folded over the empty schema, the rows are the server's final rows
+followed by `(q, v)` for `ms2` in file order, every version of either package is recorded exactly once, and
+the second run changes nothing. -/
+theorem C28_second_package_converges (ms ms2 : List Migration) (q : String) (hq : q ≠ bootstrapPkg)
+    (hwf : WellFormed ms) (h2 : C28.SecondOk ms ms2) (db : Db) (hr : Reach ms db) :
+    ∃ db', runSources [(bootstrapPkg, ms), (q, ms2)] (bootstrap db) = .ok db' ∧
+      foldMigs [] (ms ++ ms2) = some db'.schema ∧
+      db'.rows = seedRows db.userVersion.toNat ++ rowsOf bootstrapPkg (above db.userVersion.toNat ms) ++ rowsOf q ms2 ∧
+      (∀ m ∈ ms, db'.rows.count (bootstrapPkg, m.version) = 1) ∧ (∀ m ∈ ms2, db'.rows.count (q, m.version) = 1) ∧
+      db'.userVersion = db.userVersion ∧
+      runSources [(bootstrapPkg, ms), (q, ms2)] (bootstrap db') = .ok db' := by
+  obtain ⟨k, full, hk, hfull, hrun⟩ := run_final hwf hr
+  obtain ⟨full2, hfull2⟩ := Option.isSome_iff_exists.mp h2.2.2
+  have hf2 : foldMigs full ms2 = some full2 := by
+    rw [foldMigs_append, hfull] at hfull2
+    simpa using hfull2
+  have hrun1 : runFiles bootstrapPkg ms (appliedOf bootstrapPkg (bootstrap db).rows) (bootstrap db) = .ok (finalDb ms full k) := by
+    have := hrun
+    simp only [runOn, runSources] at this
+    cases h1 : runFiles bootstrapPkg ms (appliedOf bootstrapPkg (bootstrap db).rows) (bootstrap db) with
+    | failed f d => simp [h1] at this
+    | ok d => simp only [h1, Result.ok.injEq] at this; rw [this]
+  have hforeign : appliedOf q (finalDb ms full k).rows = [] := by
+    apply c28_appliedOf_foreign
+    intro r hr'
+    simp only [finalDb, List.mem_append, seedRows, rowsOf, List.mem_map] at hr'
+    rcases hr' with ⟨_, _, rfl⟩ | ⟨_, _, rfl⟩ <;> exact fun h => hq h.symm
+  have hrun2 := runFiles_pending q ms2 [] (finalDb ms full k) full2 h2.1 (fun _ _ => by simp) h2.2.1 hf2
+  have hres : runSources [(bootstrapPkg, ms), (q, ms2)] (bootstrap db) =
+      .ok { finalDb ms full k with schema := full2, rows := (finalDb ms full k).rows ++ rowsOf q ms2 } := by
+    simp only [runSources, hrun1, hforeign, hrun2]
+  have hnd : ({ finalDb ms full k with schema := full2, rows := (finalDb ms full k).rows ++ rowsOf q ms2 } : Db).rows.Nodup := by
+    have := c28_runSources_nodup [(bootstrapPkg, ms), (q, ms2)] (bootstrap db)
+      (c28_bootstrap_nodup db (fun hsm => by
+        obtain ⟨a, hinv, _⟩ := reach_inv hwf hr
+        rw [bootstrap_of_hasSM hsm] at hinv
+        obtain ⟨_, k', b, _, hms, _, _, hrows⟩ := hinv
+        rw [hrows, final_rows_eq]
+        have hsorted : (versions a).Pairwise (· < ·) := by
+          have := hwf.2.1
+          rw [hms, versions, List.map_append, List.pairwise_append] at this
+          exact this.1
+        refine List.Pairwise.map _ (fun x y hxy hc => ?_) (show (List.range' 1 k' ++ versions (above k' a)).Pairwise (· < ·) from ?_)
+        · have : x = y := by simpa using hc
+          omega
+        · rw [List.pairwise_append]
+          refine ⟨List.pairwise_lt_range' .., hsorted.sublist ((List.filter_sublist (l := a)).map _), ?_⟩
+          intro x hx y hy
+          have := (mem_range'_one.mp hx).2
+          obtain ⟨m, hm, rfl⟩ := List.mem_map.mp hy
+          have hk' : k' < m.version := by simpa [above] using (List.mem_filter.mp hm).2
+          omega))
+    rw [hres] at this
+    exact this
+  refine ⟨_, hres, by rw [hfull2], by simp [finalDb, hk], ?_, ?_, by simp [finalDb, hk], ?_⟩
+  · intro m hm
+    have h1 := final_rows_count ms hwf k m hm
+    rw [hnd.count]
+    have : (bootstrapPkg, m.version) ∈ (finalDb ms full k).rows := by
+      simp only [finalDb]
+      exact List.count_pos_iff.mp (by omega)
+    simp [this]
+  · intro m hm
+    rw [hnd.count]
+    have : (q, m.version) ∈ rowsOf q ms2 := List.mem_map.mpr ⟨m, hm, rfl⟩
+    simp [this]
+  · rw [bootstrap_of_hasSM (by simp [finalDb])]
+    exact runSources_noop_of_rows _ _ _ hres _ (fun _ h => h)
+
+/-- the production `sources=` list, as regenerated from `runtime.py` and the two store `__init__`s: the server
+package first, then the dbos package, both resolved to the directories the model decodes -/
+theorem C28_production_shape :
+    Gen.Migrate.productionPackages = [bootstrapPkg, Gen.Migrate.dbosPackage] ∧
+    Gen.Migrate.productionModules = [Gen.Migrate.defaultModule, Gen.Migrate.dbosModule] ∧
+    Gen.Migrate.productionPassesSources = true ∧ Gen.Migrate.dbosPackage ≠ bootstrapPkg ∧
+    Gen.Migrate.dbosModule ≠ Gen.Migrate.defaultModule := by decide
+
+/-- the dbos package's list as the loader reads the regenerated directory -/
+def C28.dbosShipped : List Migration := loadMigrations dbosShippedFiles
+
+theorem C28.production_eq :
+    productionSources = [(bootstrapPkg, shippedFiles), (Gen.Migrate.dbosPackage, dbosShippedFiles)] := by
+  have h1 : Gen.Migrate.productionPackages = [bootstrapPkg, Gen.Migrate.dbosPackage] := by decide
+  have h2 : (bootstrapPkg = Gen.Migrate.dbosPackage) = False := by decide
+  have h3 : (bootstrapPkg = Gen.Migrate.defaultPackage) = True := by decide
+  simp only [productionSources, h1, List.map_cons, List.map_nil, h2, h3, if_true, if_false]
+
+/-- the hypotheses hold of the two shipped directories -/
+theorem C28_production_table : C28.SecondOk shipped C28.dbosShipped ∧ C28.dbosShipped ≠ [] := by
+  refine ⟨?_, ?_⟩ <;> decide +kernel
+
+/-- **C28 for the production call** `sqlite_run_migrations(conn, sources=_SQLITE_SOURCES)`: from every start
+state of the server list the run succeeds, the schema is the server scripts then the dbos scripts, every shipped
+version of either package is recorded exactly once, `user_version` untouched, the second run changes nothing. -/
+theorem C28_production_converges (db : Db) (hr : Reach shipped db) :
+    ∃ db', runMigrations productionSources db = .ok db' ∧
+      foldMigs [] (shipped ++ C28.dbosShipped) = some db'.schema ∧
+      (∀ m ∈ shipped, db'.rows.count (bootstrapPkg, m.version) = 1) ∧
+      (∀ m ∈ C28.dbosShipped, db'.rows.count (Gen.Migrate.dbosPackage, m.version) = 1) ∧
+      db'.userVersion = db.userVersion ∧ runMigrations productionSources db' = .ok db' := by
+  obtain ⟨db', h1, h2, _, h4, h5, h6, h7⟩ := C28_second_package_converges shipped C28.dbosShipped
+    Gen.Migrate.dbosPackage (by decide) C28_shipped_table.1 C28_production_table.1 db hr
+  have hrun : ∀ d, runMigrations productionSources d =
+      runSources [(bootstrapPkg, shipped), (Gen.Migrate.dbosPackage, C28.dbosShipped)] (bootstrap d) := by
+    intro d
+    simp [runMigrations, C28.production_eq, shipped, C28.dbosShipped]
+  exact ⟨db', by rw [hrun, h1], h2, h4, h5, h6, by rw [hrun, h7]⟩
+
+-- non-vacuity: the legacy database at user_version = 2 is a start state and the dbos scripts really add objects
+example : Reach shipped (legacyDb 2) ∧ foldMigs [] (shipped ++ C28.dbosShipped) ≠ foldMigs [] shipped :=
+  ⟨reach_legacy 2 (by decide +kernel), by decide +kernel⟩
+
+/-- **Every start state is consistent**: its schema is the fold of a prefix of the list, and if the bookkeeping
+table exists its rows have no duplicates and cover that prefix. -/
+theorem C28_start_states_consistent (ms : List Migration) (hwf : WellFormed ms) (db : Db) (hr : Reach ms db) :
+    ∃ a, a <+: ms ∧ foldMigs [] a = some db.schema ∧
+      (db.hasSM = true → db.rows.Nodup ∧ ∀ m ∈ a, (bootstrapPkg, m.version) ∈ db.rows) := by
+  obtain ⟨a, hinv, _⟩ := reach_inv hwf hr
+  have hs : (bootstrap db).schema = db.schema := by unfold bootstrap; split <;> rfl
+  have hmem := hinv.applied_mem hwf
+  obtain ⟨_, k, b, _, hms, hfold, _, hrows⟩ := hinv
+  refine ⟨a, ⟨b, hms.symm⟩, by rw [← hs]; exact hfold, ?_⟩
+  intro hsm
+  rw [bootstrap_of_hasSM hsm] at hrows hmem
+  refine ⟨?_, fun m hm => mem_appliedOf.mp (hmem m hm)⟩
+  rw [hrows, final_rows_eq]
+  have hsorted : (versions a).Pairwise (· < ·) := by
+    have := hwf.2.1
+    rw [hms, versions, List.map_append, List.pairwise_append] at this
+    exact this.1
+  refine List.Pairwise.map _ (fun x y hxy hc => ?_) (show (List.range' 1 k ++ versions (above k a)).Pairwise (· < ·) from ?_)
+  · have : x = y := by simpa using hc
+    omega
+  · rw [List.pairwise_append]
+    refine ⟨List.pairwise_lt_range' .., hsorted.sublist ((List.filter_sublist (l := a)).map _), ?_⟩
+    intro x hx y hy
+    have := (mem_range'_one.mp hx).2
+    obtain ⟨m, hm, rfl⟩ := List.mem_map.mp hy
+    have hk' : k < m.version := by simpa [above] using (List.mem_filter.mp hm).2
+    omega
 
 
 /-- The exception in `C28_kill_points` is real for the shipped list (an observation outside the property's
